@@ -10,7 +10,7 @@
 #define YV_MAXT 6
 #define YV_MAXPOINTS 20000
 
-typedef struct { int tid; unsigned enabled; int chosen; const char* label; uint64_t hash; } YV_POINT;
+typedef struct { int tid; unsigned enabled; int chosen; const char* label; uint64_t hash; char abs[96]; } YV_POINT;
 
 extern YV_POINT yv_log[YV_MAXPOINTS];
 extern int yv_nlog;
@@ -20,9 +20,15 @@ extern int yv_active;            /* 0 = pass-through (no scheduling), 1 = schedu
 void yv_sched_reset(int nthreads, const int* schedule, int nsched);
 void yv_sched_set_hash_fn(uint64_t (*fn)(void));      /* extra observable state mixed into the state hash at every point */
 void yv_sched_set_invariant_fn(void (*fn)(const char* label));
+void yv_sched_set_abs_fn(void (*fn)(char* buf, int cap));   /* abstract state string recorded at every decision (model binding) */
+char yv_status_char(int tid);                          /* U unborn, R ready/runnable, B blocked, D done */
+long yv_npoints(int tid);
 int yv_self(void);                                     /* id of the calling registered thread, -1 if none */
 void yv_thread_begin(int tid);                         /* first call of a registered thread: waits until scheduled */
-void yv_thread_end(void);                              /* last call of a registered thread */
+void yv_thread_end(void);
+extern int yv_dynamic_threads;
+void yv_thread_register(int tid);                      /* dynamic mode: the thread now exists (may be scheduled) */
+void yv_join(int tid);                              /* last call of a registered thread */
 void yv_controller_start(void);                        /* called by the controller after creating the threads */
 void yv_controller_wait(void);                         /* blocks until all threads finished or a deadlock was declared */
 void yv_point(const char* label);
